@@ -84,6 +84,8 @@ where
     let mut rev_data = data.clone();
     rev_data.reverse();
     let mut rev_coder: AnsCoder<M::W, S, Reverse<Cursor<M::W, Vec<M::W>>>> = AnsCoder::from_reversed_binary(rev_data);
+    // a forward cursor whose buffer is exactly as long as the data: everything has to fit back
+    let mut cur_coder: AnsCoder<M::W, S, Cursor<M::W, Vec<M::W>>> = AnsCoder::from_binary(Cursor::new_at_write_end(data.clone())).unwrap_infallible();
 
     let mut decoded: Vec<usize> = Vec::with_capacity(k);
     let mut went_below = false;
@@ -102,8 +104,9 @@ where
         }
         let s2 = m.ans_decode(&mut slice_coder).unwrap_infallible();
         let s3 = m.ans_decode(&mut rev_coder).unwrap_infallible();
-        if s2 != sym || s3 != sym {
-            fail!("backend-divergence", "C04/backend-diverges", "decode #{i}: Vec backend {sym}, from_binary_slice {s2}, from_reversed_binary {s3}");
+        let s4 = m.ans_decode(&mut cur_coder).unwrap_infallible();
+        if s2 != sym || s3 != sym || s4 != sym {
+            fail!("backend-divergence", "C04/backend-diverges", "decode #{i}: Vec backend {sym}, from_binary_slice {s2}, from_reversed_binary {s3}, from_binary(Cursor) {s4}");
         }
         if coder.bulk().is_empty() && coder.state().as_u() < crate::num::pow2(s - w) {
             went_below = true;
@@ -128,6 +131,9 @@ where
         reference.encode(cum, p, m.prec());
         if m.ans_encode(&mut rev_coder, decoded[i]).is_err() {
             fail!("encode-failed", "C04/encode-error", "re-encoding symbol #{i} on the reversed cursor failed (out of space?)");
+        }
+        if m.ans_encode(&mut cur_coder, decoded[i]).is_err() {
+            fail!("encode-failed", "C04/encode-error", "re-encoding symbol #{i} on the exactly-fitting cursor failed (out of space?)");
         }
     }
     run.count("symbols_decoded_and_reencoded", k as u64);
@@ -184,6 +190,17 @@ where
             }
         }
         Err(e) => fail!("into_binary", "C04/into_binary-mismatch", "reversed-cursor into_binary() failed: {e:?}"),
+    }
+    // exactly-fitting forward cursor: consuming accessor
+    match cur_coder.into_binary() {
+        Ok(cur) => {
+            let (buf, pos) = cur.into_buf_and_pos();
+            let got = words_u128(&buf[..pos]);
+            if got != du {
+                fail!("into_binary", "C04/into_binary-mismatch", "exactly-fitting cursor: into_binary() leaves {:?} (pos={pos})", got);
+            }
+        }
+        Err(e) => fail!("into_binary", "C04/into_binary-mismatch", "exactly-fitting cursor: into_binary() failed: {e:?} (data of {} words)", du.len()),
     }
     let expect_ref = reference.binary();
     if expect_ref.as_deref() != Some(&du[..]) {
